@@ -103,6 +103,14 @@ def run(ctx):
             except Exception as e:
                 bad('rp-decode', 'RP66V1 code_read(%d, %s) raised %s' % (code, by.hex(), e), dict(code=code, word=word))
                 return
+            try:          # the named decoder (RepCode.FSINGL, ...) is the same function reached another way
+                ld2 = RF.LogicalData(by)
+                got_named = getattr(R, R.REP_CODE_INT_TO_STR[code])(ld2)
+                if not (got_named == got or (got_named != got_named and got != got)) or ld2.index != rp_fixed[code]:
+                    bad('rp-decode', 'RP66V1 %s(%s) = %r consuming %d, code_read(%d) = %r' % (R.REP_CODE_INT_TO_STR[code], by.hex(), got_named, ld2.index, code, got),
+                        dict(code=code, word=word))
+            except Exception as e:
+                bad('rp-decode', 'RP66V1 %s(%s) raised %s' % (R.REP_CODE_INT_TO_STR.get(code), by.hex(), e), dict(code=code, word=word))
             if ld.index != rp_fixed[code]:
                 bad('rp-consume', 'RP66V1 code %d consumed %d bytes, standard %d' % (code, ld.index, rp_fixed[code]), dict(code=code))
             if cls in ('inf', 'nan'):
